@@ -265,6 +265,15 @@ pub fn fasta_set(set: &fasta::RecordSet, ctx: &mut MonCtx) {
         if again != orig {
             report(ctx, "C19.set_clone", "cloned fasta RecordSet iterates differently".into());
         }
+        // ... and so must a long-lived set that is overwritten with clone_from (it has held other,
+        // possibly larger, sets before)
+        let mut dst = ctx.fa_clone_dst.take().unwrap_or_default();
+        dst.clone_from(set);
+        let again: Vec<RecObs> = (&dst).into_iter().map(|r| crate::drive::fa_obs(&r)).collect();
+        if again != orig || dst.len() != set.len() {
+            report(ctx, "C19.set_clone_from", format!("fasta RecordSet::clone_from into a used set: {} records instead of {} / different contents", again.len(), orig.len()));
+        }
+        ctx.fa_clone_dst = Some(dst);
     }
     if ctx.mon.iters {
         let n = set.len();
@@ -509,6 +518,13 @@ pub fn fastq_set(set: &fastq::RecordSet, ctx: &mut MonCtx) {
         if again != orig {
             report(ctx, "C19.set_clone", "cloned fastq RecordSet iterates differently".into());
         }
+        let mut dst = ctx.fq_clone_dst.take().unwrap_or_default();
+        dst.clone_from(set);
+        let again: Vec<RecObs> = (&dst).into_iter().map(|r| crate::drive::fq_obs(&r)).collect();
+        if again != orig || dst.len() != set.len() {
+            report(ctx, "C19.set_clone_from", format!("fastq RecordSet::clone_from into a used set: {} records instead of {} / different contents", again.len(), orig.len()));
+        }
+        ctx.fq_clone_dst = Some(dst);
     }
     if ctx.mon.iters {
         let n = set.len();
